@@ -50,6 +50,7 @@ def _strategy(draw):
         return draw(_book_last())
     spec = draw(gen.portfolios_all())
     spec["split"] = draw(st.one_of(st.none(), st.none(), st.none(), st.sampled_from(SPLITS)))
+    spec["soft"] = draw(st.integers(0, 2)) == 0      # (only looked at for problems with binary variables)
     T = spec["grid"]["T"]
     r = draw(st.integers(0, 11))
     if r == 0:
@@ -118,10 +119,17 @@ def check(spec):
               "same_name_as_wrapped_asset" if spec.get("same_name_as_wrapped") else None)
     if is_err(r.op):
         return out.drop("setup_error:" + r.op.kind)
-    res = r.optimize()
+    if r.is_mip and spec.get("soft") and not split:
+        # the relaxed problem (documented option make_soft_problem): the accounting identities hold for whatever
+        # solution is reported, also with fractional values of the relaxed binary variables
+        res = r.optimize(make_soft_problem=True)
+        out.label("relaxed_mip")
+    else:
+        res = r.optimize()
     if is_err(res):
         return out.drop("optimize_error:" + res.kind)
     out.label(obs.status_label(res))
+    x_before = None if isinstance(res, str) else np.array(res.x, float)
     if isinstance(res, str):
         return out.drop("no_solution")
     o = r.output()
@@ -143,6 +151,9 @@ def check(spec):
     if abs(total - V) > tol:
         out.fail("sum of DCF table %.9g != reported value %.9g" % (total, V))
     x = np.asarray(res.x, float)
+    if x_before is not None and (len(x) != len(x_before) or np.abs(x - x_before).max(initial=0) > 0):
+        out.label("x_changed_by_extract_output")      # not part of C04's statement: the identities below decide
+        x = x_before
     c = np.asarray(r.op.c, float)
     if len(x) != len(c):
         return out.fail("length of x %d != length of cost vector %d" % (len(x), len(c)))
